@@ -20,6 +20,8 @@ def wid(cname, k='ListArray'):
 
 
 def ctype_of(cname, k='ListArray'):
+    if cname in ('ListArray64', 'ListArray32', 'ListArrayU32'):
+        return {'ListArray64': 'int64_t', 'ListArray32': 'int32_t', 'ListArrayU32': 'uint32_t'}[cname]
     return {'32': 'int32_t', 'U32': 'uint32_t', '64': 'int64_t'}[wid(cname, k)]
 
 
@@ -204,6 +206,44 @@ def h_range_counts(cname, n, L):
     def oracle(io):
         return [('no error', io.err()), ('total = last offset - first offset', io.y('total', 0) != io.x('fromoffsets', n) - io.x('fromoffsets', 0))]
     return discharge(h, '%s n=%d' % (cname, n), oracle, [], extra=dict(bounds=dict(n=n, L=L)))
+
+
+@guard
+def h_jagged_apply(w, n, L, lens):
+    """jagged integer-array index: list i of the slice holds the positions to take from list i of the array
+    (carrylen sizes the carry buffer as in ListArrayOf<T>::getitem_next_jagged).  lens = lengths of the slice lists (case split)."""
+    ct = ctype_of('ListArray' + w)
+    cname, clen = 'awkward_ListArray%s_getitem_jagged_apply_64' % w, 'awkward_ListArray_getitem_jagged_carrylen_64'
+    tot = sum(lens)
+    h = Harness([cname, clen], unwind=n + tot + 6)
+    h.scalar('sliceouterlen', 'int64_t', n); h.scalar('sliceinnerlen', 'int64_t', tot); h.scalar('contentlen', 'int64_t')
+    CL = h.scalars['contentlen'][0]
+    h.assume(CL >= 0, CL <= type_max(ct) if ct != 'int64_t' else CL <= 2 ** 62)
+    offs = [sum(lens[:i]) for i in range(n + 1)]
+    h.array('slicestarts', 'int64_t', n, const=True, values=offs[:n]); h.array('slicestops', 'int64_t', n, const=True, values=offs[1:])
+    h.arr('sliceindex', 'int64_t', tot, const=True)
+    decl_lists(h, n, L, ct, lencontent=CL)
+    h.arr('carrylen', 'int64_t', 1)
+    h.kcall(clen, [('buf', 'carrylen'), ('buf', 'slicestarts'), ('buf', 'slicestops'), 'sliceouterlen'])
+    h.arr('tooffsets', 'int64_t', n + 1)
+    h.arr('tocarry', 'int64_t', h.out('carrylen', 0), cap_c='carrylen[0]')
+    h.kcall(cname, [('buf', 'tooffsets'), ('buf', 'tocarry'), ('buf', 'slicestarts'), ('buf', 'slicestops'), 'sliceouterlen', ('buf', 'sliceindex'),
+                    'sliceinnerlen', ('buf', 'fromstarts'), ('buf', 'fromstops'), 'contentlen'])
+
+    def oracle(io):
+        out, bad = [('carrylen kernel reports no error', io.err(0))], []
+        ok = z3.Not(io.err(1))
+        for i in range(n):
+            a, b = io.x('fromstarts', i), io.x('fromstops', i)
+            for p in range(lens[i]):
+                r, inr = wrap_index(io.x('sliceindex', offs[i] + p), b - a)
+                bad.append(z3.Not(inr))
+                out.append(('list %d, jagged index %d selects start + wrapped index' % (i, p), z3.And(ok, io.y('tocarry', offs[i] + p) != a + r)))
+            out.append(('tooffsets[%d]' % (i + 1), z3.And(ok, io.y('tooffsets', i + 1) != offs[i + 1])))
+        out.append(('error iff some jagged index is out of range for the list it addresses (never returns data)', io.err(1) != z3.Or(bad + [z3.BoolVal(False)])))
+        return out
+    tw = [('ok', z3.Not(h.errs[1][2])), ('error', h.errs[1][2])] if tot else []
+    return discharge(h, '%s n=%d slice lens=%s' % (cname, n, lens), oracle, tw, extra=dict(bounds=dict(n=n, L=L, slice_lens=list(lens))))
 
 
 # ------------------------------------------------------------------------------------------------- RegularArray
@@ -406,6 +446,11 @@ def jobs(tier):
             for m in range(M + 1):
                 js.append((h_next_array, ('awkward_ListArray%s_getitem_next_array_64' % w, n, L, m), 900))
             js.append((h_next_array, ('awkward_ListArray%s_getitem_next_array_advanced_64' % w, n, L, M), 900))
+    import itertools
+    for w in ['64', '32', 'U32']:
+        for n in range(1, N + 1):
+            for lens in itertools.product(range(3), repeat=n):
+                js.append((h_jagged_apply, (w, n, L, lens), 900))
     for n in range(N + 1):
         js.append((h_regular_at, (n,), 600))
         for m in range(M + 1):
